@@ -19,6 +19,9 @@ pub enum Kind {
     U32,
     U64,
     Bool,
+    /// 128-bit integers; the simulator only generates values that fit 64 bits (sign-extended)
+    I128,
+    U128,
 }
 
 impl Kind {
@@ -38,6 +41,8 @@ impl Kind {
             Kind::U32 => "u32",
             Kind::U64 => "u64",
             Kind::Bool => "bool",
+            Kind::I128 => "i128",
+            Kind::U128 => "u128",
         }
     }
     pub fn code(self) -> u64 {
@@ -193,7 +198,7 @@ impl Node {
                     Kind::F32 => write!(s, "{:?}f32#{:08x}", f32::from_bits(*bits as u32), *bits as u32),
                     Kind::F64 => write!(s, "{:?}f64#{:016x}", f64::from_bits(*bits), bits),
                     Kind::Bool => write!(s, "{}", *bits != 0),
-                    Kind::I8 | Kind::I16 | Kind::I32 | Kind::I64 => {
+                    Kind::I8 | Kind::I16 | Kind::I32 | Kind::I64 | Kind::I128 => {
                         write!(s, "{}{}", *bits as i64, kind.name())
                     }
                     _ => write!(s, "{}{}", bits, kind.name()),
